@@ -1816,4 +1816,24 @@ example : ∀ t, (Expr.add (.neg (.tok 1 0)) (.mul (.num (3/4)) (.tok 0 0))).eva
 
 example : isMono (.add (.mul (.num (3/4)) (.tok 0 0)) (.num 1)) = false := by decide
 
+
+/-- **finding `nonlinear-growth-two-date-solution`** (the mechanism, on the model): `(x - 1)·(x[-1] - 1) = 0` has the
+steady state `x = 1`; it is of degree 2 in `x` (not `isAffine`, and `-(lhs) + rhs` is not monomial = monomial with a
+growing non-log `x`). In growth mode the guess `level 1, change 1` -- the trending path `x_t = 1 + t` -- makes the residual
+vanish at BOTH dates the evaluator looks at (0 and 1): the exit test is met, the accepting wrapper takes the answer, the
+loop completes and stores it; on the stored variant the equation is off by 2 at date 2 (and by `t(t-1)` at date `t`).
+Everything proved about dates t, t+1 (`all_equations_hold`) holds here; the every-date theorems do not apply. -/
+example :
+    let eq : Expr := .add (.neg (.mul (.sub (.tok 0 0) (.num 1)) (.sub (.tok 0 (-1)) (.num 1)))) (.num 0)
+    let cfg : Config := { flat := false, logly := fun _ => false, isVar := fun q => q = 0, loggable := fun q => q = 0,
+                          eqs := [eq], fixedLevel := [], fixedChange := [] }
+    isAffine (fun _ => true) eq = false
+    ∧ exitTest (1 / 1000000000000) ((mkEvaluator cfg ⟨[0], [0]⟩ exV0).resid [1, 1]) = true
+    ∧ (match steadyNonlinear cfg (certify (1 / 1000000000000) cfg.loggable (fun _ _ => some [1, 1])) [⟨[0], [0]⟩] exV0 with
+       | .ok v' => v'.level 0 == some 1 && v'.change 0 == some 1
+                   && eq.eval (steadyArray cfg.logly v') 0 == some 0 && eq.eval (steadyArray cfg.logly v') 1 == some 0
+                   && eq.eval (steadyArray cfg.logly v') 2 == some (-2) && eq.eval (steadyArray cfg.logly v') (-3) == some (-12)
+       | .error _ => false) = true := by
+  decide +kernel
+
 end IrisVerif.C05
